@@ -227,6 +227,12 @@ static int cif_map_set_item(cif_map_t *map, const UChar *key, cif_value_tp *valu
 
                         /* referenced by the HASH_ADD_KEYPTR macro: */
                         FAILURE_HANDLER(soft):
+                        if (map->head == item) {
+                            /* uthash could not create the table for its first item, which it nevertheless made the head */
+                            free(item->hh.tbl);
+                            map->head = NULL;
+                        }
+                        cif_value_clean(new_value);
                         free(key_copy);
                     }
 
